@@ -66,6 +66,28 @@ class Out(object):
             self.samples.extend(other.samples[: 3 - len(self.samples)])
 
 
+class CaseTimeout(Exception):
+    """one case (a history with all its successors, or one sweep item) ran longer than CASE_LIMIT_S"""
+
+
+CASE_LIMIT_S = int(os.environ.get("PROVMC_CASE_LIMIT_S", "120"))
+
+
+def _on_alarm(signum, frame):
+    raise CaseTimeout()
+
+
+def _arm():
+    import signal
+    signal.signal(signal.SIGALRM, _on_alarm)
+    signal.alarm(CASE_LIMIT_S)
+
+
+def _disarm():
+    import signal
+    signal.alarm(0)
+
+
 def digest(key):
     return hashlib.blake2b(key.encode("utf-8", "surrogatepass"), digest_size=16).digest()
 
@@ -73,50 +95,64 @@ def digest(key):
 def _work(args):
     hists, expand = args
     spec = _SPEC
-    alpha = spec.alphabet
     out = Out()
     succ = {}
     try:
         for hist in hists:
-            st = spec.build(hist)
-            # state oracles on this (new) state
-            spec.check_state(st, out)
-            out.evaluations += 1
-            if not expand:
-                continue
-            dirty = spec.mutating_checks
-            for i, op in enumerate(alpha):
-                if dirty:
-                    st = spec.build(hist)
-                    dirty = False
-                h2 = hist + (i,)
-                try:
-                    pre = spec.pre(st, op)
-                    spec.apply(st, op)
-                except machine.NotEnabled as e:
-                    out.filters[e.args[0]] += 1
-                    continue
-                except machine.NonConformance as e:
-                    dirty = True
-                    out.transitions += 1
-                    spec.nonconformance(st, h2, op, e, out)
-                    continue
-                except Exception as e:  # the library refused or crashed
-                    dirty = True
-                    out.transitions += 1
-                    spec.op_exception(st, h2, op, e, out)
-                    continue
-                dirty = True
-                st.hist = h2
-                out.transitions += 1
-                out.conform += 1
-                spec.check_transition(pre, op, st, out)
-                d = digest(spec.canon(st))
-                if d not in succ:
-                    succ[d] = h2
+            _arm()
+            try:
+                _one(spec, hist, expand, out, succ)
+            except CaseTimeout:
+                out.violation("does-not-terminate", "case-limit-%ss" % CASE_LIMIT_S,
+                              {"note": "processing this history and its successors exceeded the per-case time limit"},
+                              hist)
+            finally:
+                _disarm()
     except Exception:
         return ("error", traceback.format_exc())
     return ("ok", list(succ.items()), out)
+
+
+def _one(spec, hist, expand, out, succ):
+    alpha = spec.alphabet
+    st = spec.build(hist)
+    # state oracles on this (new) state
+    spec.check_state(st, out)
+    out.evaluations += 1
+    if not expand:
+        return
+    dirty = spec.mutating_checks
+    for i, op in enumerate(alpha):
+        if dirty:
+            st = spec.build(hist)
+            dirty = False
+        h2 = hist + (i,)
+        try:
+            pre = spec.pre(st, op)
+            spec.apply(st, op)
+        except machine.NotEnabled as e:
+            out.filters[e.args[0]] += 1
+            continue
+        except machine.NonConformance as e:
+            dirty = True
+            out.transitions += 1
+            spec.nonconformance(st, h2, op, e, out)
+            continue
+        except CaseTimeout:
+            raise
+        except Exception as e:  # the library refused or crashed
+            dirty = True
+            out.transitions += 1
+            spec.op_exception(st, h2, op, e, out)
+            continue
+        dirty = True
+        st.hist = h2
+        out.transitions += 1
+        out.conform += 1
+        spec.check_transition(pre, op, st, out)
+        d = digest(spec.canon(st))
+        if d not in succ:
+            succ[d] = h2
 
 
 def bfs(modname, tier, params, depth, budget_s=None, max_states=None, dedup=True, collect=None):
@@ -209,7 +245,14 @@ def _sweep_work(args):
     try:
         f = getattr(_SPEC, func_name)
         for it in items:
-            f(it, out)
+            _arm()
+            try:
+                f(it, out)
+            except CaseTimeout:
+                out.violation("does-not-terminate", "case-limit-%ss" % CASE_LIMIT_S,
+                              {"item": repr(it)[:500]}, None)
+            finally:
+                _disarm()
             out.evaluations += 1
     except Exception:
         return ("error", traceback.format_exc())
